@@ -3,7 +3,7 @@
 # Applies a patch (git diff format, or a file ending .sed with sed -i commands "file:::expr")
 # to a scratch copy of /repo/FlowCal under /dev/shm and runs the check against it.
 set -u
-P="$1"; PROP="$2"; TIER="${3:-quick}"
+P="$(realpath "$1")"; PROP="$2"; TIER="${3:-quick}"
 S=$(mktemp -d /dev/shm/rvmut.XXXXXX)
 mkdir -p "$S/repo"
 cp -r /repo/FlowCal "$S/repo/FlowCal"
